@@ -27,41 +27,61 @@ class C01(Prop):
     engines = ["e2e"]
     design_ref = "DESIGN.md section 7, C01"
     level_text = ("Lean composition theorems over the component models (H3.E2E glue: Message, wire, sendAll, recvPattern, "
-                  "deliver): C01_wire_of_send — for every well-formed message and EVERY family of write-acceptance scripts "
-                  "(partial writes, Pending anywhere; calls awaited, R-14) the request stream is handed exactly wire(m) "
-                  "(+ the grease frame if owed) and finished (from C14); C01_wire_is_valid_message — the RFC 9114 oracle reads "
-                  "wire(m) as [HEADERS section, DATA piece_1..piece_n, (HEADERS trailers)?] and a clean end, the sections "
-                  "RFC-9204-decode to pseudo fields ++ map iteration (C11, C12); C01_recv_of_wire — for EVERY transport "
-                  "script carrying those bytes (any non-empty chunks, pend anywhere, then FIN) the documented receive pattern, "
-                  "every call awaited, over the FrameStream model hands over the same head, header map (per-name order kept), "
-                  "body = concatenation of the pieces, trailers, exactly one clean end, no error, under size <= "
-                  "max_field_section_size (C10) — proved directly from the C02 invariant, no FrameSim hypothesis, no limit on "
-                  "the number of fields (D-01 repaired); C01_delivered_parts — same method, scheme, authority, path / status; "
-                  "C01_end_to_end — the composition for requests and responses; C01_field_count_refused — the only limit left "
-                  "is http::HeaderMap's 24576 distinct names, which neither the sender's map can hold nor the receiver's; "
-                  "C01_interleaving_irrelevant_partial — the record of a request stream after ANY run of the C14 connection "
-                  "machine depends only on the steps addressing it, receive components share only the error cell which every "
-                  "call leaves alone unless it answers a connection error, split halves act on disjoint components (_partial: "
-                  "the connection driver is not a component of the interleaving products)")
+                  "deliver; Model/Split.lean: split(); H3.Iso: C07's product machine): C01_wire_of_send — for every "
+                  "well-formed message and EVERY family of write-acceptance scripts (partial writes, Pending anywhere; calls "
+                  "awaited, R-14) the request stream is handed exactly wire(m) (+ the grease frame if owed) and finished (from "
+                  "C14); C01_wire_is_valid_message — the RFC 9114 oracle reads wire(m) as [HEADERS section, DATA "
+                  "piece_1..piece_n, (HEADERS trailers)?] and a clean end, the sections RFC-9204-decode to pseudo fields ++ map "
+                  "iteration (C11, C12); C01_recv_of_wire — for EVERY transport script carrying those bytes (any non-empty "
+                  "chunks, pend anywhere, then FIN) the documented receive pattern, every call awaited, over the FrameStream "
+                  "model hands over the same head, header map (per-name order kept), body = concatenation of the pieces, "
+                  "trailers, exactly one clean end, no error, under size <= max_field_section_size (C10); C01_head_survives — "
+                  "'the head survives the trip' (HeadOk) is DERIVED from the laws of the http crate for heads made of values "
+                  "of the crate, absolute-form and authority-form (CONNECT) targets, and what arrives is expectedHead(m); "
+                  "C01_delivered_parts — same method, scheme, authority, path / status; C01_end_to_end — the composition for "
+                  "requests and responses, HeadOk no longer a hypothesis; C01_field_count_refused — the only limit left is "
+                  "http::HeaderMap's 24576 distinct names; C01_split_anywhere — split() is modelled field by field (buffer, eos, "
+                  "decoder memo, remaining_data, remembered trailers, size limit go to the receive half): the documented pattern "
+                  "split before ANY of its calls answers what the unsplit stream answers (= recvPattern on a fresh stream), any "
+                  "interleaving of receive polls, send steps and split() projects onto the two machines, split commutes with "
+                  "both (C01_recv_of_wire_split: the delivery theorem with a split anywhere); C01_end_to_end_interleaved — ONE "
+                  "interleaved sequence of the sending endpoint's machine steps (C14) and the receiving endpoint's events (C07 "
+                  "product: deliveries, polls of any stream re-polled after Pending, driver polls), any number of exchanges: "
+                  "every sender's stream is handed its message's bytes, every receiver's digest (ALL answers of all its polls, "
+                  "Pending left out) is its own message with exactly one head, exactly one Ok(None) counted in the digest, one "
+                  "trailers answer, nothing reset/stopped, cell empty, close never called, = deliver over any script with the "
+                  "same bytes; that the exchanges' streams never write the error cell is proved, not assumed; "
+                  "C01_interleaving_irrelevant_partial — machine projections and commutations (_partial: of the connection "
+                  "driver only the error side is a component of the product; tokio/Quinn scheduling and wakers not modelled)")
     level_note = ("trusted: Lean kernel + 3 axioms; component models tied by their own correspondence runs; the two-endpoint "
                   "SimQuic run (two real h3 endpoints joined by a scripted relay) ties the composition: the driver's MODEL half "
-                  "is H3.E2E.deliver over a chunking of H3.E2E.wire of the scenario's message, with the identity instance of "
-                  "the http parameter, so the http round-trip assumptions are checked on every case; tokio/Quinn scheduling "
-                  "not modelled (partial): granularity is one poll of one task or one transport event")
+                  "is H3.E2E.deliver over a chunking of H3.E2E.streamBytes of the scenario's message, with the identity instance "
+                  "of the http parameter, so the http round-trip assumptions are checked on every case; the projection keeps "
+                  "everything that happened (calls left pending, closes, resets, stops, unexpected answers) and model and "
+                  "specification say 'none'; tokio/Quinn scheduling not modelled (partial): granularity is one poll of one task "
+                  "or one transport event")
     rule = ("two real endpoints (client, server) over SimQuic joined by a relay that moves bytes only when the script says "
-            "so; messages from alphabets of methods, absolute/authority-form targets, duplicate header names, high-byte values, "
-            "bodies 0..64 KiB in arbitrary send pieces incl. empty ones, trailers or not; relay whole / in random 1..7-byte "
-            "pieces / partial per stream; sender back-pressure via write credit; receiving calls posted before or after the "
-            "data; executor order seeds; whole or split request streams; 1..2 concurrent requests; one exchange whose request "
-            "and response each carry more than 24576 fields (values under one name); non-trivial = the request head was "
-            "delivered")
+            "so; messages from alphabets of methods incl. CONNECT (authority-form target) and extended CONNECT (:protocol, "
+            "ec=1 on both endpoints), absolute-form targets, duplicate header names, high-byte values, bodies 0..64 KiB in "
+            "arbitrary send pieces incl. empty ones (64 KiB in 8..60 pieces in the thorough tier), trailers or not; grease "
+            "on/off per endpoint; a PRODUCT of: sender back-pressure via write credit on the client and/or the server (heads, "
+            "DATA and trailers partially written) x readers posted before / while / after the data arrives x relay whole / in "
+            "random 1..7-byte pieces / partial per stream x reader shapes (one loop; recv_data, split mid-body, loop on the "
+            "receive half; body to its end, split with the trailers remembered, recv_trailers on the receive half; split "
+            "right after the head) on both endpoints x client streams whole / split before the body / split after the "
+            "response head with both halves in use at once (four tasks on one stream) x 1..4 concurrent requests x executor "
+            "order seeds; one exchange whose request and response each carry more than 24576 fields; non-trivial = the "
+            "request head was delivered")
     trusted = ["http crate (HeaderMap order, Uri/Method parsing and printing): parameter Http with HttpLaws (C12) and the "
-               "round-trip facts PseudoBack / HttpRoundTrip (parse(as_str(v)) = v for the crate's own Scheme, Authority, "
-               "PathAndQuery values; a built Uri has the parts it was built from), checked by the e2e run itself"]
+               "round-trip facts HttpRoundTrip (parse(as_str(v)) = v for the crate's own Scheme, Authority, PathAndQuery "
+               "values; a built Uri has the parts it was built from; scheme+authority+path build, an authority alone "
+               "builds), checked by the e2e run itself and by the verdict tables of C12's hdr engine"]
     assumptions = ["well-formed messages only (names lowercase tokens, values legal bytes; octets; fields the sender's own "
-                   "http::HeaderMap can hold: at most 24576 distinct names, any number of values)",
+                   "http::HeaderMap can hold: at most 24576 distinct names, any number of values; the head made of values "
+                   "of the http crate: HeadValues)",
                    "API programs are sequences of completed calls (R-14)",
-                   "transport chunks are non-empty; a delivery arriving after a poll is a `pend` in the script (R-T)",
+                   "transport chunks are non-empty; scripted transports: a delivery arriving after a poll is a `pend` in "
+                   "the script (R-T); in C01_end_to_end_interleaved deliveries are events of the history",
                    "field sections within the receiver's max_field_section_size and the peer's advertised limit (C10)"]
 
     # results a call of a request-stream task may have without the projection mentioning it
@@ -414,16 +434,36 @@ class C01(Prop):
 
     def cases(self, tier, rng):
         big = tier == "thorough"
-        return [self.one_case(rng, big) for _ in range(4000 if big else 700)] + [self.many_fields_case()]
+        return [self.one_case(rng, big) for _ in range(6000 if big else 1500)] + [self.many_fields_case()]
 
     def shrink_candidates(self, line):
+        """Smaller lines that are still complete scenarios (a line that merely leaves something pending — a
+        relay or a credit grant taken away — fails for a reason of its own and would mislead): drop the whole
+        last exchange (highest stream id: every op of its tasks, its relays and grants, its `send_request`);
+        drop one partial relay `><sid>:<k>` / one small credit grant (the whole relays and the final grants
+        stay)."""
         w = line.split()
         ops = w[3:]
         out = []
-        for i in range(len(ops)):
-            if ops[i] in ("s.conn.AL", "c.drv.W"):
-                continue
-            out.append(" ".join(w[:3] + ops[:i] + ops[i + 1:]))
+        n = len([op for op in ops if op.startswith("c.snd.R:")])
+        if n > 1:
+            sid = 4 * (n - 1)
+            pat = re.compile(r"^([cs]\.q%ds?\.|[<>]x?%d:|[cs]:[gc]w%d:)" % (sid, sid, sid))
+            keep, seen = [], 0
+            for op in ops:
+                if op.startswith("c.snd.R:"):
+                    seen += 1
+                    if seen == n:
+                        continue
+                if pat.match(op):
+                    continue
+                keep.append(op)
+            out.append(" ".join(w[:3] + keep))
+        start = ops.index("c.drv.W") + 1 if "c.drv.W" in ops else 0
+        for i in range(start, len(ops)):
+            m = re.match(r"^[<>]\d+:(\d+)$", ops[i]) or re.match(r"^[cs]:gw\d+:(\d+)$", ops[i])
+            if m and int(m.group(1)) <= 1000:
+                out.append(" ".join(w[:3] + ops[:i] + ops[i + 1:]))
         return out
 
 
